@@ -1172,7 +1172,10 @@ class Store:
             for child, inner_value in value.items():
                 if child not in self.inner:
                     if self.subschema:
-                        self.inner[child] = Store(self.subschema, self)
+                        # apply the sub-schema through the sub-topology,
+                        # as Store.add() does
+                        self._establish_path((child,), {})
+                        self._apply_subschema_path((child,))
                     else:
                         pass
                         # TODO: continue to ignore extra keys?
@@ -1194,10 +1197,9 @@ class Store:
 
             for child, inner_value in value.items():
                 if child not in self.inner:
+                    self._establish_path((child,), {})
                     if self.subschema:
-                        self.inner[child] = Store(self.subschema, self)
-                    else:
-                        self._establish_path((child,), {})
+                        self._apply_subschema_path((child,))
 
                 if child in self.inner:
                     self.inner[child].generate_value(inner_value)
